@@ -61,15 +61,16 @@ def load_csv(
     if id_col is not None and not df.iloc[:, id_col].is_unique:
         raise DataError(f"Duplicate value(s) in column at index {id_col}")
 
+    # id_col and weight_col index the columns of the file, so the frame is not cut down to
+    # the ranking columns; group on the ranking columns by name instead
     if rank_cols:
-        if id_col is not None:
-            df = df.iloc[:, rank_cols + [id_col]]
-        else:
-            df = df.iloc[:, rank_cols]
-
-    ranks = list(df.columns)
-    if id_col is not None:
-        ranks.remove(df.columns[id_col])
+        ranks = [df.columns[c] for c in rank_cols]
+    else:
+        ranks = [
+            name
+            for c, name in enumerate(df.columns)
+            if c != id_col and c != weight_col
+        ]
     grouped = df.groupby(ranks, dropna=False)
     ballots = []
 
